@@ -502,8 +502,65 @@ def cls_parameters_contract():
     return c
 
 
+def get_value_generator_dynamic_contract():
+    """`get_value_generator(name)` for a Dynamic parameter on an instance: the object stored for the
+    name on the instance — whatever it is, also None — else the default of the CLASS-level Parameter
+    (what the attribute shows), never the possibly outdated default of an instance-level copy."""
+    from pyvc.builtins_lib import hasattr_fn
+    from pyvc.objects import sym_field
+    holder = {}
+
+    def configure(I):
+        I.sym_fields = {"default"}
+
+        def objects(I, st, fv, args, kwargs, ctx):
+            return [(st, holder["od"])]
+        I.contracts["Parameters.objects"] = objects
+
+        def clsp(I, st, fv, args, kwargs, ctx):
+            return [(st, holder["cp"])]
+        I.contracts["Parameters._cls_parameters"] = clsp
+
+    def setup(I, st):
+        U = I.U
+        obj = I.alloc_obj(st, "Parameterized", lazy=True, label="obj")
+        priv = I.alloc_obj(st, "_InstancePrivate", lazy=True, label="obj._param__private")
+        values = I.alloc_dict(st, keys=U.fresh_seq("set_names"), vals=z3.Const("instance_values", z3.ArraySort(vm.V, vm.V)))
+        st.heap[priv.oid].fields["values"] = values
+        st.heap[obj.oid].fields["_param__private"] = priv
+        par = I.alloc_obj(st, "Parameters", lazy=False, label="param")
+        st.heap[par.oid].fields.update({"cls": ClsV("Parameterized"), "self": obj, "self_or_cls": obj})
+        st.heap[obj.oid].fields["param"] = par
+        name = Sym(U.fresh("name"))
+        st.pc.append(vm.ty(name.t) == vm.TAG["str"])
+        od = I.alloc_dict(st, keys=U.fresh_seq("pnames"), vals=z3.Const("existing_pobjs", z3.ArraySort(vm.V, vm.V)))
+        cp = I.alloc_dict(st, keys=U.fresh_seq("cnames"), vals=z3.Const("class_pobjs", z3.ArraySort(vm.V, vm.V)))
+        holder.update({"od": od, "cp": cp})
+        h, hc = st.heap[od.oid], st.heap[cp.oid]
+        pobj = z3.Select(h.vals, name.t)
+        U.well_typed(pobj)
+        st.pc += [z3.Contains(h.keys, z3.Unit(name.t)), z3.Contains(hc.keys, z3.Unit(name.t)), vm.truthy(pobj),
+                  z3.Not(hasattr_fn("attribs")(pobj)), hasattr_fn("_value_is_dynamic")(pobj)]
+        fv = I.bound_method(par, I.src.find_method("Parameters", "get_value_generator"))
+        hv = st.heap[values.oid]
+        return fv, [name], {}, {"name": name.t, "vkeys": hv.keys, "vvals": hv.vals, "cvals": hc.vals,
+                                "Fdef": sym_field(I, st, "default"), "symbols": {}}
+
+    def post(I, info, st, oc):
+        if isinstance(oc, Raise):
+            return [("does-not-raise", z3.BoolVal(False))]
+        n = info["name"]
+        is_set = z3.Contains(info["vkeys"], z3.Unit(n))
+        return [("set on the instance: the stored object itself (also when it is None)",
+                 z3.Implies(is_set, I.term(oc) == z3.Select(info["vvals"], n))),
+                ("not set: the default of the class-level Parameter, not of an instance-level copy",
+                 z3.Implies(z3.Not(is_set), I.term(oc) == z3.Select(info["Fdef"], z3.Select(info["cvals"], n))))]
+    return FunctionContract("%s:Parameters.get_value_generator" % MOD, PROP, setup, post, configure=configure,
+                            name="Parameters.get_value_generator[dynamic parameter, instance]")
+
+
 _c13_base3 = contracts
 
 
 def contracts():
-    return _c13_base3() + [cls_parameters_contract()]
+    return _c13_base3() + [cls_parameters_contract(), get_value_generator_dynamic_contract()]
